@@ -42,6 +42,9 @@ ASSUMPTIONS = [
     "for check/get/set/unset (push/pop re-enter with a one-level chain for which no caller defines skip_types)",
     "decoy keys are only keys of the other two operations among get/set/unset (as real test nodes carry them), "
     "never check_* keys (no caller combines them with get/set/unset parameters)",
+    "push is documented as 'identical to the set operation' and pop as get followed by unset, so the readonly-image "
+    "filter of get/set/unset is expected of push/pop as well (own signature: readonly-image-used)",
+    "a failing sequence is reduced by a deterministic minimiser of the harness instead of hypothesis' shrinker",
     "only acting calls (get/set/unset/get_root/set_root/unset_root/destroy) are compared in order; read-only "
     "queries (show/check_root) only count for the 'object never touched' oracle",
 ]
@@ -460,16 +463,6 @@ def model_apply(store, case, call):
 # running one call against the code under test and comparing
 
 
-def object_class(case, key):
-    if key is None:
-        return None
-    if key not in {k for k, _ in iteration(case["topo"])}:
-        return "unknown"
-    if key in case["readonly"]:
-        return "readonly-image"
-    return level_of(key)
-
-
 def run_step(impl, case, world, model, call, index):
     """Returns (violation or None, info)."""
     ss, exceptions = impl["ss"], impl["exceptions"]
@@ -526,9 +519,11 @@ def run_step(impl, case, world, model, call, index):
     for position, (want, got) in enumerate(itertools.zip_longest(expected_actions, got_actions)):
         if want != got:
             key = (got or want)[1]
+            sig = {"oracle": "actions-differ", "expected": want[0] if want else None, "got": got[0] if got else None}
+            if want and got and want[0] == got[0]:
+                sig["same"] = "other-object" if want[1] != got[1] else "other-state"
             return violation(
-                {"oracle": "actions-differ", "expected": want[0] if want else None, "got": got[0] if got else None,
-                 "object": object_class(case, key)},
+                sig,
                 f"acting call #{position}: documented {want}, performed {got}\n"
                 f"documented: {expected_actions}\nperformed:  {got_actions}\noutcome {outcome}, documented {expected_outcome}"), info
     if outcome != expected_outcome:
@@ -536,14 +531,14 @@ def run_step(impl, case, world, model, call, index):
                          f"outcome {outcome}, documented {expected_outcome}; acting calls {got_actions}"), info
     strangers = sorted({k for _, k, _ in log} - set(touched))
     if strangers:
-        return violation({"oracle": "unaddressed-object-called", "object": object_class(case, strangers[0])},
+        return violation({"oracle": "unaddressed-object-called"},
                          f"objects {strangers} received calls "
                          f"{[entry for entry in log if entry[1] in strangers][:6]} although only {touched} are addressed"), info
     got_store = world.snapshot()
     want_store = {k: {"root": v["root"], "states": sorted(v["states"])} for k, v in sorted(model.items())}
     if got_store != want_store:
         differing = [k for k in want_store if want_store[k] != got_store.get(k)]
-        return violation({"oracle": "store-differs", "object": object_class(case, differing[0]) if differing else None},
+        return violation({"oracle": "store-differs"},
                          f"store after the call differs for {differing}: "
                          f"{ {k: got_store.get(k) for k in differing} } instead of { {k: want_store[k] for k in differing} }"), info
     return None, info
@@ -1000,7 +995,7 @@ def run(ctx):
             ctx.record_violation(found, case)
 
     # hypothesis' shrinking of the machine is switched off: a failing sequence is reduced by minimise() instead
-    ctx.machine(make_machine(impl, ctx), ctx.budget(3000, 200000), steps=30, name="sequences", shrink=False)
+    ctx.machine(make_machine(impl, ctx), ctx.budget(3000, 120000), steps=30, name="sequences", shrink=False)
 
 
 def replay(ctx, case):
